@@ -375,12 +375,27 @@ class World:
                 elif route == "bil":
                     g = Grid.from_header(self.path_arg(fbil, "ld"))
                 elif route == "stream":
+                    # the header stream as the caller left it: fresh, read in
+                    # part (first line sniffed), or just written (at its end)
+                    pos = cs.choice("hdr_stream_at", ["start", "start",
+                                                      "after_first_line",
+                                                      "end"])
                     if cs.flip("memstream", 50):
-                        sh = io.StringIO(fhdr.read_text())
+                        if pos == "end":
+                            sh = io.StringIO()
+                            sh.write(fhdr.read_text())
+                        else:
+                            sh = io.StringIO(fhdr.read_text())
+                            if pos == "after_first_line":
+                                sh.readline()
                         with open(fbil, "rb") as fd:
                             g = Grid.from_stream(sh, fd)
                     else:
                         with open(fhdr, "r") as sh, open(fbil, "rb") as fd:
+                            if pos == "after_first_line":
+                                sh.readline()
+                            elif pos == "end":
+                                sh.read()
                             g = Grid.from_stream(sh, fd)
                 else:
                     g = self.load_zip(fhdr, fbil, key)
